@@ -255,7 +255,7 @@ func MatchDatum(t *gen.T, v reflect.Value, omit bool, d any, path string) string
 		return matchPrim(v.Float(), d, path)
 	case gen.KFloat32:
 		// float32 widened exactly to double (NaN stays NaN)
-		f := v.Interface().(float32)
+		f := float32(v.Float())
 		got, ok := d.(float64)
 		if !ok {
 			return fmt.Sprintf("%s: want double, got %s", path, refavro.Render(d))
@@ -438,7 +438,7 @@ func EqualNorm(t *gen.T, w, g reflect.Value, omit bool, path string) string {
 			return fmt.Sprintf("%s: %v (%x) != %v (%x)", path, a, math.Float64bits(a), b, math.Float64bits(b))
 		}
 	case gen.KFloat32:
-		a, b := w.Interface().(float32), g.Interface().(float32)
+		a, b := math.Float32frombits(f32bits(w)), math.Float32frombits(f32bits(g))
 		if math.Float32bits(a) != math.Float32bits(b) {
 			if a != a && b != b {
 				return "" // NaN payload/quiet bit: hardware conversion
@@ -743,4 +743,14 @@ func derefColl(t *gen.T, v reflect.Value) (*gen.T, reflect.Value, bool) {
 		t = t.Elem
 	}
 	return t, v, false
+}
+
+// f32bits returns the bit pattern of a float32-kind value (predeclared or defined type).
+func f32bits(v reflect.Value) uint32 {
+	if v.CanAddr() {
+		return *(*uint32)(v.Addr().UnsafePointer())
+	}
+	c := reflect.New(v.Type()).Elem()
+	c.Set(v)
+	return *(*uint32)(c.Addr().UnsafePointer())
 }
